@@ -236,6 +236,23 @@ func selftest(repo, seedsDir, known string, only []string) int {
 		fmt.Printf("%-7s %-6s %s own=%d fired=%v %s\n", st, r.Seed, r.Property, r.Own, r.Fired, r.Note)
 	}
 	fmt.Printf("selftest: %d controls, %d silent\n", len(res), bad)
+	if len(only) == 0 {
+		neg := runNegControls(repo, filepath.Join(filepath.Dir(seedsDir), "benign"), known, "all")
+		noisy := 0
+		for _, r := range neg {
+			st := "silent"
+			switch {
+			case !r.Applied:
+				st = "n/a   "
+			case !r.Silent:
+				st = "NOISY "
+				noisy++
+			}
+			fmt.Printf("%-7s %-8s fired=%v %s\n", st, r.Patch, r.Fired, r.Note)
+		}
+		fmt.Printf("selftest: %d behaviour-preserving refactorings, %d raise an alarm\n", len(neg), noisy)
+		bad += noisy
+	}
 	if bad > 0 {
 		return 2
 	}
